@@ -113,11 +113,23 @@ def stand_in():
     return _server['srv']
 
 
+def valid_fields(kind, k):
+    """what a successful reply of this kind returns at step k: fresh values,
+    except that 'valid:<letters>' keeps the named ones (a access token,
+    c client token, i profile id, n profile name) the same in every reply -
+    a renamed player keeps the id, a refresh may return the old tokens"""
+    same = kind[6:] if kind.startswith('valid:') else ''
+    return tuple(('%sS' % base) if letter in same else '%s%d' % (base, k)
+                 for letter, base in (('a', 'acc'), ('c', 'cli'),
+                                      ('i', 'pid'), ('n', 'Name')))
+
+
 def body_for(kind, op, k):
     """-> (bytes, content type, parsed-error-or-None)"""
-    if kind == 'valid':
-        d = {'accessToken': 'acc%d' % k, 'clientToken': 'cli%d' % k,
-             'selectedProfile': {'id': 'pid%d' % k, 'name': 'Name%d' % k},
+    if kind == 'valid' or kind.startswith('valid:'):
+        a, c, i, n = valid_fields(kind, k)
+        d = {'accessToken': a, 'clientToken': c,
+             'selectedProfile': {'id': i, 'name': n},
              'availableProfiles': []}
         return json.dumps(d).encode(), 'application/json', None
     if kind == 'full':
@@ -364,7 +376,7 @@ def _history_case(ctx, case):
                      snapshot(tok), before)
             return
         if name in ('authenticate', 'refresh') and status == 200 and \
-                kind == 'valid':
+                (kind == 'valid' or kind.startswith('valid:')):
             k = step + 1
             if exc is not None or result is not True:
                 ctx.fail('history', 'Y3-success-result', sub,
@@ -372,8 +384,7 @@ def _history_case(ctx, case):
                 return
             if name == 'authenticate':
                 model[0] = op[1]
-            model[1:] = ['acc%d' % k, 'cli%d' % k, 'pid%d' % k,
-                         'Name%d' % k]
+            model[1:] = list(valid_fields(kind, k))
             if list(snapshot(tok)) != model:
                 ctx.fail('history', 'Y3-stored-fields', sub, snapshot(tok),
                          model)
@@ -543,7 +554,11 @@ def op_strategy():
     err = st.tuples(st.sampled_from(ERR_STATUS), err_body)
     user = st.sampled_from(['alice@example.org', 'bob', 'é'])
     pw = st.sampled_from(['hunter2', ''])
-    auth = st.one_of(st.just((200, 'valid')), st.just((200, 'valid')), err)
+    auth = st.one_of(st.just((200, 'valid')), st.just((200, 'valid')),
+                     st.sampled_from(['valid:i', 'valid:n', 'valid:ac',
+                                      'valid:in', 'valid:a', 'valid:aci',
+                                      'valid:acin']).map(lambda k_: (200, k_)),
+                     err)
     ok204 = st.one_of(st.just((204, 'empty')), st.just((204, 'empty')), err,
                       st.just((200, 'empty')))
     return st.one_of(
@@ -583,6 +598,16 @@ def t_subsets(ctx, lo, hi):
                     continue
                 history_case(ctx, {'initial': list(init),
                                    'ops': [op + rep]})
+    # a renamed player (same profile id, new name), unchanged tokens, ...
+    for seq in (['valid', 'valid:i', 'valid:i'], ['valid:n', 'valid:n'],
+                ['valid', 'valid:ac', 'valid:aci'], ['valid:acin'] * 2,
+                ['valid:i', 'valid', 'valid:i']):
+        for first in ('authenticate', 'refresh'):
+            ops = [((('authenticate', 'u', 'p', False) if j == 0 and
+                     first == 'authenticate' else ('refresh',)) + (200, k_))
+                   for j, k_ in enumerate(seq)] + [('join', 'sid', 204,
+                                                    'empty')]
+            history_case(ctx, {'initial': [True] * 5, 'ops': ops})
     ctx.sample({'initial': [True, True, False, True, False],
                 'ops': [('refresh', 403, 'full')]}, 'subsets')
     ctx.exhaustive_done('all 32 initial field subsets x 7 operations x 11 '
